@@ -227,14 +227,15 @@ fn main() {
             let (fec, fid) = *rng.pick(&[(Fec::RaptorQ, FECEncodingID::RaptorQ), (Fec::Raptor, FECEncodingID::Raptor), (Fec::RaptorQ, FECEncodingID::RaptorQ),
                 (Fec::NoCode, FECEncodingID::NoCode), (Fec::Rs28, FECEncodingID::ReedSolomonGF28), (Fec::Rs28Us, FECEncodingID::ReedSolomonGF28UnderSpecified)]);
             let e = *rng.pick(&[4u16, 8, 16, 64, 1024, 1400, 1428]);
-            let bmax = match fec { Fec::Rs28 | Fec::Rs28Us => 250u64, Fec::Raptor => 8192, _ => 56403 };
-            let b = (*rng.pick(&[1u64, 2, 3, 4, 5, 7, 8, 10, 16, 63, 64, 100, 255, 1000])).min(bmax) as u32;
+            let bmax = match fec { Fec::Rs28 | Fec::Rs28Us => 250u64, Fec::Raptor => 8192, Fec::NoCode => u32::MAX as u64, _ => 56403 };
+            // No-Code carries B in a 32-bit field: values at and above 2^16 belong to the quantifier (B < 2^32)
+            let b = (*rng.pick(&[1u64, 2, 3, 4, 5, 7, 8, 10, 16, 63, 64, 100, 255, 1000, 65535, 65536, 65544, (1 << 17) + 3, 1 << 31, u32::MAX as u64])).min(bmax) as u32;
             let mut checked = 0u64;
             let mut shapes = std::collections::BTreeSet::new();
             for _ in 0..200 {
                 // Z blocks, then a length on the lattice Z*T*k + r
                 let z = rng.range(1, 12);
-                let k = rng.range(1, b as u64);
+                let k = if b > 100_000 { rng.range(1, 200) } else { rng.range(1, b as u64) };
                 let r = match rng.below(4) { 0 => 0, 1 => rng.range(1, z), 2 => rng.range(0, z * e as u64), _ => z * e as u64 - 1 };
                 let l = (z * e as u64 * k + r).max(1);
                 let p = ref_partition(b as u128, l as u128, e as u128);
